@@ -70,7 +70,13 @@ class CallMixin:
 
                 def f(*a: Any, **kw: Any) -> Any:
                     return self.run_body(c["f"], list(a), kw)
-                f.__name__ = f"fn{c['f']}"
+                # identifier dimension: every definition its own name (default), ONE name
+                # for all definitions of the program (two closures of one factory, two
+                # lambdas, one function traced for other shapes), or no identifier tag
+                ident = self.prog.get("ident", "own")
+                f.__name__ = "fn" if ident == "shared" else f"fn{c['f']}"
+                if ident == "none":
+                    return pt.trace_call(f, *args, identifier=None, **kwargs)
                 return pt.trace_call(f, *args, **kwargs)
             return self.run_body(c["f"], args, kwargs)
         if c["op"] == "item":
@@ -325,6 +331,62 @@ def _build_many(progs: list[dict]) -> list[dict]:
     return [build(p) for p in progs]
 
 
+def directed_ident() -> list[dict]:
+    """DIFFERENT definitions with one FunctionIdentifier, the same parameter names and
+    the same return type in one graph (closures of one factory, two lambdas, one Python
+    function traced for other shapes / dtypes): they must stay different functions in
+    every mapper that caches per definition."""
+    def inp(name: str, shape: tuple, dtype: str = "f8") -> dict:
+        return {"kind": "ph", "name": name, "shape": list(shape), "dtype": dtype}
+    two = 2
+    bodies = {
+        "closures": ([{"op": "mul", "a": 1, "b": {"py": "float", "v": "2.0"}}],
+                     [{"op": "mul", "a": 1, "b": {"py": "float", "v": "-3.0"}}], 1),
+        "lambdas": ([{"op": "add", "a": 1, "b": 2}, {"op": "mul", "a": 3, "b": 3}],
+                    [{"op": "add", "a": 1, "b": 2}, {"op": "sub", "a": 1, "b": 2},
+                     {"op": "mul", "a": 3, "b": 4}], two),
+        "swapped": ([{"op": "sub", "a": 1, "b": 2}], [{"op": "sub", "a": 2, "b": 1}], two),
+    }
+    out = []
+    for name, (b0, b1, nparams) in bodies.items():
+        for rt in ("array", "tuple", "dict"):
+            def ret(body: list) -> dict:
+                v = nparams + len(body)
+                return {"array": {"type": "array", "v": v}, "tuple": {"type": "tuple", "v": [v]},
+                        "dict": {"type": "dict", "v": {"r": v}}}[rt]
+            key = {"array": None, "tuple": 0, "dict": "r"}[rt]
+            sig = [([3], "f8")] * nparams
+            funcs = [{"nparams": nparams, "kwparams": [], "calls": b, "ret": ret(b), "sig": sig}
+                     for b in (b0, b1)]
+            args = [1, 2][:nparams]
+            calls = [{"op": "trace_call", "f": 0, "args": args, "kw": {}},
+                     {"op": "item", "a": 3, "key": key},
+                     {"op": "trace_call", "f": 1, "args": args, "kw": {}},
+                     {"op": "item", "a": 5, "key": key},
+                     {"op": "add", "a": 4, "b": 6}]
+            for ident in ("shared", "own", "none"):
+                out.append({"id": f"ident_{name}_{rt}_{ident}", "ident": ident,
+                            "inputs": [inp("x", (3,)), inp("y", (3,))], "calls": calls,
+                            "outs": {"out0": 4, "out1": 6, "out2": 7}, "funcs": funcs})
+    # one body traced for operands of another shape / dtype
+    body = [{"op": "add", "a": 1, "b": {"py": "float", "v": "1.0"}},
+            {"op": "sum", "a": 2, "axis": None}]
+    for sh, dt2 in (((2, 3), "f8"), ((3,), "f4")):
+        funcs = [{"nparams": 1, "kwparams": [], "calls": body, "ret": {"type": "array", "v": 3},
+                  "sig": [([3], "f8")]},
+                 {"nparams": 1, "kwparams": [], "calls": body, "ret": {"type": "array", "v": 3},
+                  "sig": [(list(sh), dt2)]}]
+        calls = [{"op": "trace_call", "f": 0, "args": [1], "kw": {}},
+                 {"op": "item", "a": 3, "key": None},
+                 {"op": "trace_call", "f": 1, "args": [2], "kw": {}},
+                 {"op": "item", "a": 5, "key": None}]
+        for ident in ("shared", "own"):
+            out.append({"id": f"ident_poly_{'x'.join(map(str, sh))}_{dt2}_{ident}", "ident": ident,
+                        "inputs": [inp("x", (3,)), inp("y", sh, dt2)], "calls": calls,
+                        "outs": {"out0": 4, "out1": 6}, "funcs": funcs})
+    return out
+
+
 def programs(tier: str) -> list[dict]:
     rng = np.random.default_rng(seed())
     n = 300 if tier == "quick" else 4000
@@ -334,8 +396,9 @@ def programs(tier: str) -> list[dict]:
         tries += 1
         p = random_call_program(rng, f"c{len(out)}")
         if p is not None:
+            p["ident"] = ("own", "own", "shared", "none")[len(out) % 4]
             out.append(p)
-    return out
+    return directed_ident() + out
 
 
 def main(tier: str, only: list[dict] | None = None) -> int:
